@@ -215,9 +215,12 @@ pub fn c16_q_tpl_eq_literal() {
 }
 
 /// transitivity on three templates
+/// NOT REGISTERED (`_x_`): three symbolic templates at once exceed the per-solver memory limit (out of memory after 230 s in two
+/// thorough runs). Transitivity within the bound follows from `c16_[qt]_tpl_eq_by_meaning_*` (equality <=> equal normal forms, and
+/// equality of normal forms is an equivalence).
 #[kani::proof]
 #[kani::unwind(13)]
-pub fn c16_t_tpl_eq_transitive() {
+pub fn c16_x_tpl_eq_transitive() {
     let ta = sym_tpl(2, 1);
     let tb = sym_tpl(3, 1);
     let tc = sym_tpl(2, 1);
